@@ -1,10 +1,10 @@
 #!/bin/bash
-# runs every seeded change against a selection of checks (own property + related ones); output /tmp/matrix.log
+# runs every seeded change against its own check and up to two related ones; output on stdout
 declare -A EXTRA
-EXTRA[C01]="C02 C15 C16 C05"; EXTRA[C02]="C01 C11 C16 C05"; EXTRA[C03]="C04 C17 C02"; EXTRA[C04]="C03 C17 C05 C14"; EXTRA[C05]="C17 C08 C04"
-EXTRA[C06]="C12 C13 C15"; EXTRA[C07]="C11 C02 C16"; EXTRA[C08]="C05 C02 C18"; EXTRA[C09]="C10 C16 C11"; EXTRA[C10]="C09 C11 C05"
-EXTRA[C11]="C07 C10 C02"; EXTRA[C12]="C06 C13"; EXTRA[C13]="C06 C12 C14"; EXTRA[C14]="C04 C17 C01"; EXTRA[C15]="C01 C06 C13"
-EXTRA[C16]="C09 C10 C02"; EXTRA[C17]="C04 C05 C14"; EXTRA[C18]="C05"; EXTRA[C19]=""
+EXTRA[C01]="C15 C02"; EXTRA[C02]="C11 C01"; EXTRA[C03]="C04"; EXTRA[C04]="C03 C17"; EXTRA[C05]="C17 C08"
+EXTRA[C06]="C12 C13"; EXTRA[C07]="C11"; EXTRA[C08]="C18"; EXTRA[C09]="C10 C16"; EXTRA[C10]="C09 C11"
+EXTRA[C11]="C10 C07"; EXTRA[C12]="C06 C13"; EXTRA[C13]="C12 C06"; EXTRA[C14]="C04 C17"; EXTRA[C15]="C06 C01"
+EXTRA[C16]="C09"; EXTRA[C17]="C04 C14"; EXTRA[C18]=""; EXTRA[C19]=""
 for d in /verif/seeded/*/; do
   id=$(basename $d); p=${id%%-*}
   /verif/tools/matrix.sh $id $d/patch.diff $p ${EXTRA[$p]}
